@@ -2,6 +2,7 @@ CONSTANTS
   STAR = "*"
   QM = "?"
   COLON = ":"
+  Fold <- MCFold
   Dev = {}
   Apps <- MCApps
   Reqs <- MCReqs
@@ -10,7 +11,7 @@ CONSTANTS
   MaxHosts = 0
   MaxRoutes = 0
   MaxDef = 0
-  NHostVals = 5
+  NHostVals = 7
   NPaths = 8
   NQueries = 2
   Others = {0}
